@@ -364,7 +364,16 @@ def regenerate_all(only: Optional[Sequence[str]] = None) -> List[Dict[str, str]]
         info.append({"file": f"coq/gen/{fname}", "sha256": sha256(text)})
     if errors:
         raise Broken("; ".join(e.what for e in errors), "\n".join(e.detail for e in errors))
-    changed = [k for k, v in found.items() if ref.get(k) != v]
+    # each translator module owns its digests (two modules may pin the same function with
+    # differently normalised digests): compare per owner
+    changed = []
+    for owner, sk in by_owner.items():
+        fn = "skeletons.json" if owner == "core" else f"skeletons_{owner}.json"
+        try:
+            oref = json.load(open(os.path.join(COQ, "ref", fn)))
+        except FileNotFoundError:
+            oref = {}
+        changed.extend(k for k, v in sk.items() if oref.get(k) != v)
     if os.environ.get("VERIF_RECORD_SKELETONS") == "1":
         for owner, sk in by_owner.items():
             fn = "skeletons.json" if owner == "core" else f"skeletons_{owner}.json"
